@@ -251,6 +251,12 @@ def tcp_units(conn, flights):
             while fi < len(flights) and not (fbounds[d][fi][0] <= lo < fbounds[d][fi][1]):
                 fi += 1
             u = {"lo": lo, "hi": c, "seg": segi}
+            pm = tcp.get("psh_mode", "all")
+            if pm == "last":
+                # PSH only on the segment that ends a write (here: the last segment of the direction's flight)
+                u["psh"] = (fi < len(flights) and c == fbounds[d][fi][1])
+            elif pm == "random":
+                u["psh"] = bool(hashlib.sha256(b"psh%d:%d:%s" % (conn.get("sub", 0), segi, d.encode())).digest()[0] & 1)
             if segi in acts:
                 u["act"] = acts[segi]
             units[fi][d].append(u)
@@ -373,6 +379,12 @@ def build_frame(conn, info, e, mod=None):
     cl = conn["c_mig"] if (e.get("mig") and conn.get("c_mig")) else conn["c"]   # client address after NAT rebinding
     src = ep(cl if e["d"] == "c" else conn["s"])
     dst = ep(conn["s"] if e["d"] == "c" else cl)
+    if conn.get("src_per_dgram") and e["d"] == "c" and "dg" in e:
+        # a burst of unrelated datagrams from many different hosts and ports (scan, DDoS reflection, ...)
+        ipb = bytearray(src["ip"])
+        ipb[-2] = (ipb[-2] + e["dg"] // 200 + 1) & 0xFF
+        ipb[-1] = (e["dg"] * 37 + 1) % 251 + 1
+        src = dict(src, ip=bytes(ipb), port=1024 + (e["dg"] * 7919) % 60000)
     pad_to = 60 if conn.get("pad_eth", True) else 0
     bad = None
     if mod and mod.get("badcsum"):
@@ -686,8 +698,20 @@ def apply_keychan(kc, outlines, items, frames_meta, taplog):
         # merged captures (mergecap of per-host captures with embedded secrets): one secrets block per connection,
         # directly in front of that connection's first captured packet
         first = {}
+        first_s = {}
         for j, i in enumerate(frames_meta):
             first.setdefault(taplog[i]["conn"], j)
+        if kc["dsb_per_conn"] == "after_first_flight":
+            # the tool that wrote the capture logged the secrets as soon as the TLS stack produced them: the block sits
+            # behind the client's first flight (ClientHello), in front of the first packet of the server
+            for j, i in enumerate(frames_meta):
+                e = taplog[i]
+                if e["d"] == "s" and "ctl" not in e and first.get(e["conn"], 10 ** 9) <= j and e["conn"] not in first_s:
+                    first_s[e["conn"]] = j
+            # (TLS only: for QUIC the secrets must be known when the packets are read - the property requires the
+            # block in front of the packets there)
+            quic_ids = set(e2["conn"] for e2 in taplog if "dg" in e2)
+            first = {cid: (pos if cid in quic_ids else first_s.get(cid, pos)) for cid, pos in first.items()}
         groups = {}
         for (_, cid, l) in outlines:
             groups.setdefault(cid, []).append(l)
